@@ -103,6 +103,19 @@ CLAIMED = {
             "Trusts the pyvc encoder, z3 (Seq + LIA/NIA); A-concrete-inputs (abstract-array branches dropped); float scalar as "
             "real; mixed int/pair input sequences of symbolic length, num_copies and __hash__ are not covered.",
             "DESIGN.md 4 C44", "E1"),
+    "C03": ("proof",
+            "wrapper contracts over a GENERIC base: a real Operator subclass whose matrix has symbolic complex entries is "
+            "wrapped by the real Adjoint/Pow/Controlled/Prod/Sum/SProd/map_wires/simplify and the resulting matrices are "
+            "proved equal (polynomial identities in the entries) to the matrix arithmetic of the operands; per-gate "
+            "shortcuts adjoint()/pow(z)/ctrl of every named gate on symbolic parameters; structural induction for nesting",
+            "Adjoint, integer Pow (0..4), Controlled (all control-value strings, <= 2 controls), Prod (same, disjoint and "
+            "overlapping wires, both wire orders), Sum, SProd (symbolic complex scalar), map_wires, wire-order expansion, a "
+            "nested expression and its simplify() have exactly the matrix of the corresponding matrix arithmetic for ANY "
+            "operand matrices; the named gates' eager adjoint/pow/ctrl shortcuts agree with M^dagger, M^z, diag(I, M).",
+            "Size-bounded in dimension (bases on 1-2 wires within 3 wires), complete in matrix entries; Exp, "
+            "LinearCombination, fractional powers and templates as operands are outside; U2/U3.adjoint (angle reduction with "
+            "%) only bounded.",
+            "DESIGN.md 4 C03", "E2"),
     "C05": ("proof",
             "contracts on the cache-key functions: (a) every angle reduction `% P` in _process_data/_canonicalize_dynamic "
             "(read from the AST each run) requires the real gate matrix to be exactly P-periodic in every parameter "
